@@ -7,10 +7,12 @@ from hv import Case
 from props.c18 import parse_snap
 
 SPEC = {
-    "lean_modules": ["Honeycomb.Props.C04", "Honeycomb.Props.C04Cells", "Honeycomb.Props.C04Cells2", "Honeycomb.Props.C04Gen", "Honeycomb.Props.C01Gen2"],
+    "lean_modules": ["Honeycomb.Props.C04", "Honeycomb.Props.C04Cells", "Honeycomb.Props.C04Cells2", "Honeycomb.Props.C04Gen", "Honeycomb.Props.C01Gen2", "Honeycomb.Props.C18Gen"],
     # Gen/AttrMoves.lean is re-translated from attributes/collections.rs before every build
-    "gen": ["attrs", "sews2"],
+    "gen": ["attrs", "sews2", "alloc"],
     "required_theorems": [
+        # Props/C18Gen.lean: merge_attributes / split_attributes (manager.rs) hand every storage of the bucket the identifiers unpermuted
+        "C18_gen_attr_loops", "C18_gen_buckets",
         # Props/C01Gen2.lean: the translated CMap2::one_sew / one_unsew ARE the model's oneSew2 / oneUnsew2
         "C01_gen_oneSew2", "C01_gen_oneUnsew2", "C01_gen_twoSew2", "C01_gen_twoUnsew2",
         # Props/C04Gen.lean: the translated AttrSparseVec::merge / split ARE the model's mergeS / splitS (program equality)
